@@ -59,6 +59,15 @@ def gen(ctx):
         spec = M.random_spec(rng, [which])
         dm = {"matrix": mat, "objectives": G.objectives(rng, n), "weights": w, "alternatives": G.labels(rng, G.LABEL_POOL_ALT, m),
               "criteria": G.labels(rng, G.LABEL_POOL_CRIT, n), "family": fam}
+        if which == "ELECTRE2" and rng.random() < 0.3:
+            # small whole numbers, 6-8 alternatives, permissive thresholds: distillations of three and more rounds
+            m, n = rng.randint(6, 8), rng.randint(3, 5)
+            mat = [[float(rng.randint(1, 8)) for _ in range(n)] for _ in range(m)]
+            _, w = _dyadic_dm(rng, m, n)
+            dm = {"matrix": mat, "objectives": G.objectives(rng, n), "weights": w, "alternatives": G.labels(rng, G.LABEL_POOL_ALT, m),
+                  "criteria": G.labels(rng, G.LABEL_POOL_CRIT, n), "family": "dyadic"}
+            if rng.random() < 0.6:
+                spec = {"name": "ELECTRE2", "p0": 0.625, "p1": 0.5, "p2": 0.25, "q0": 0.875, "q1": 0.75}
         if rng.random() < 0.1:
             # the same kind of problem stored as narrow / unsigned integers: differences must not be taken in that dtype
             dm = M.narrow_int_variant(rng, dm)
